@@ -18,8 +18,10 @@ RULE = ("Hypothesis-generated cond-out trees: package directories over the ident
         "row set. Non-trivial = expected deletion set non-empty AND >=1 look-alike that must survive (nested in a task "
         "dir, a file, a recorded sibling with the same name, or the same name/ts recorded under another package). "
         "Distinct = SHA-1 of case JSON.")
-ASSUMPTIONS = ["only directories whose names are valid package names, task directories of either form, and files are "
-               "generated (stray directories with other names are not: the property does not say what they are)",
+ASSUMPTIONS = ["only directories whose names are valid package names, task directories of either form, files, and symbolic "
+               "links placed by hand are generated (stray directories with other names are not: the property does not say "
+               "what they are); a symbolic link is never an experiment output directory, and nothing may be deleted or listed "
+               "through one",
                "gc is invoked from the project root (cwd variation belongs to C17)"]
 ESSENTIAL = ["nested_lookalike", "recorded_same_name_other_pkg", "depth>=2", "row_without_dir", "dry_run", "verbose",
              "root_package_exp", "file_lookalike", "nothing_to_delete", "name_with_dash_or_underscore"]
@@ -55,7 +57,9 @@ def _strategy(draw, tier):
             rows_extra.append([other, e[2], e[3]])
     flags = draw(st.sampled_from([[], [], ["-n"], ["-v"], ["-n", "-v"], ["--dry-run"], ["--verbose"]]))
     return {"entries": entries, "rows_extra": rows_extra, "flags": flags,
-            "stray_files": draw(st.booleans())}
+            "stray_files": draw(st.booleans()),
+            # manual additions: symbolic links placed in cond-out by hand
+            "links": draw(st.sampled_from([[], [], [], ["outside"], ["alias"], ["tasklike"], ["outside", "alias", "tasklike"]]))}
 
 
 def strategy(tier):
@@ -157,6 +161,28 @@ def build(root, case):
         with open(os.path.join(root, "x.task.5"), "w") as f:
             f.write("a file outside cond-out")
         os.makedirs(os.path.join(root, "src", "y.task.9"), exist_ok=True)
+    for kind in case.get("links", []):
+        labels.add("symlink_in_cond_out")
+        if kind == "outside":
+            # a link to a directory outside cond-out that holds something named like an experiment output
+            ext = os.path.join(root, "datasets")
+            os.makedirs(os.path.join(ext, "keep.task.4"), exist_ok=True)
+            with open(os.path.join(ext, "keep.task.4", "data.bin"), "w") as f:
+                f.write("precious")
+            if not os.path.lexists(os.path.join(out, "reference")):
+                os.symlink(ext, os.path.join(out, "reference"))
+        elif kind == "alias":
+            # an alias of a package directory: recorded versions seen through it must survive
+            pk = next((p for p, k, *_ in case["entries"] if p and "/" not in p), None)
+            if pk and os.path.isdir(os.path.join(out, pk)) and not os.path.lexists(os.path.join(out, "alias-of-pkg")):
+                os.symlink(pk, os.path.join(out, "alias-of-pkg"))
+        elif kind == "tasklike":
+            tgt = os.path.join(root, "elsewhere")
+            os.makedirs(tgt, exist_ok=True)
+            with open(os.path.join(tgt, "f.txt"), "w") as f:
+                f.write("x")
+            if not os.path.lexists(os.path.join(out, "lnk.task.7")):
+                os.symlink(tgt, os.path.join(out, "lnk.task.7"))
     if rows:
         projgen.seed_rows(root, [(t, ts, None, False) for t, ts in sorted(rows)], make_dirs=False)
     else:
